@@ -455,6 +455,14 @@ func (s *Service) stopRunnablePipeline(ctx context.Context, rp *runnablePipeline
 		}
 
 		switch {
+		case len(armedSources) == 0 && len(unarmedSources) == 0:
+			// Every worker had already stopped by itself when this call
+			// arrived: the run is ending on its own, typically because it has
+			// just failed. There is nothing to arm and nothing failed to
+			// arm, and this call returns success - so the request stands.
+			// Keep the marker: without it the cleanup goroutine treated the
+			// failure as spontaneous and restarted the pipeline the user had
+			// just been told was stopping.
 		case len(armedSources) == 0:
 			// Nothing armed: every worker's Stop call failed BEFORE setting
 			// w.stop (the only such path is acquireProcessingLock losing to
